@@ -27,7 +27,8 @@ RAW = {
     'Evt4': [('rj111', rc.enc_assoc_rj(1, 1, 1)), ('rj232', rc.enc_assoc_rj(2, 3, 2))],
     'Evt6': [('rq', rc.enc_assoc_rq(contexts=convo.CTXS, max_length=4096))],
     'Evt10': [('pdata-complete', rc.enc_pdata([(1, 3, ECHO_CMD)])),
-              ('pdata-partial', rc.enc_pdata([(1, 1, ECHO_CMD[:10])]))],
+              ('pdata-partial', rc.enc_pdata([(1, 1, ECHO_CMD[:10])])),
+              ('pdata-rest', rc.enc_pdata([(1, 3, ECHO_CMD[10:])]))],
     'Evt12': [('relrq', rc.enc_release_rq())],
     'Evt13': [('relrp', rc.enc_release_rp())],
     'Evt16': [('abort00', rc.enc_abort(0, 0)), ('abort26', rc.enc_abort(2, 6))],
@@ -60,6 +61,8 @@ HIST = {
         'Sta8': [('peer', 'rq'), ('user', 'ac'), ('peer', 'relrq')],
         'Sta13': [('peer', 'rq'), ('user', 'ac'), ('peer', 'relrq'), ('user', 'relrp')],
         'Sta13b': [('peer', 'rq'), ('user', 'rj')],
+        'Sta6p': [('peer', 'rq'), ('user', 'ac'), ('peer', 'part')],
+        'Sta7p': [('peer', 'rq'), ('user', 'ac'), ('peer', 'part'), ('user', 'relrq')],
         'Sta10': [('peer', 'rq'), ('user', 'ac'), ('user', 'relrq'), ('peer', 'relrq')],
         'Sta12': [('peer', 'rq'), ('user', 'ac'), ('user', 'relrq'), ('peer', 'relrq'),
                   ('peer', 'relrp')],
@@ -68,6 +71,7 @@ HIST = {
         'Sta5': [('user', 'rq')],
         'Sta6': [('user', 'rq'), ('peer', 'ac')],
         'Sta7': [('user', 'rq'), ('peer', 'ac'), ('user', 'relrq')],
+        'Sta7p': [('user', 'rq'), ('peer', 'ac'), ('peer', 'part'), ('user', 'relrq')],
         'Sta8': [('user', 'rq'), ('peer', 'ac'), ('peer', 'relrq')],
         'Sta13': [('user', 'rq'), ('peer', 'ac'), ('peer', 'relrq'), ('user', 'relrp')],
         'Sta9': [('user', 'rq'), ('peer', 'ac'), ('user', 'relrq'), ('peer', 'relrq')],
@@ -90,13 +94,20 @@ def cases(tier, seed):
         for state in rm.STATES:
             for event in rm.EVENTS:
                 for var in variants(event):
+                    if var == 'pdata-rest':
+                        continue        # only meaningful while a message is half received
                     for timer in ('run', 'stop'):
                         yield dict(role=role, state=state, event=event, var=var, timer=timer,
                                    route='assign')
         for hname in HIST[role]:
+            pending = hname.endswith('p')
             for event in rm.EVENTS:
                 for var in variants(event):
-                    yield dict(role=role, state=hname.rstrip('b'), event=event, var=var,
+                    if var == 'pdata-rest' and not pending:
+                        continue
+                    if pending and event == 'Evt10' and var != 'pdata-rest':
+                        continue        # a second message inside an open one is DIMSE garbage (C12)
+                    yield dict(role=role, state=hname.rstrip('bp'), event=event, var=var,
                                timer='asis', route='history:' + hname)
 
 
@@ -108,7 +119,7 @@ def _lib_pdu(raw):
 
 def _peer_raw(name):
     return {'rq': RAW['Evt6'][0][1], 'ac': RAW['Evt3'][0][1], 'relrq': RAW['Evt12'][0][1],
-            'relrp': RAW['Evt13'][0][1]}[name]
+            'relrp': RAW['Evt13'][0][1], 'part': RAW['Evt10'][1][1]}[name]
 
 
 def _user_prim(name):
@@ -336,7 +347,7 @@ def _check_user(exp, inds, prim_canon, prim, var):
             return ['user']
         return []
     if u == 'pdata':
-        if var == 'pdata-complete':
+        if var in ('pdata-complete', 'pdata-rest'):
             if len(inds) != 1 or not isinstance(inds[0], tuple) or inds[0][1] != 1:
                 return ['user']
             m = inds[0][0]
